@@ -1009,6 +1009,15 @@ func buildIntrinsics() map[string]*Native {
 	reg("os.Getenv", func(ip *Interp, a []Value) Value { return MkStr("") })
 	reg("syscall.Getenv", func(ip *Interp, a []Value) Value { return Tuple{MkStr(""), tFalse} })
 	reg("time.runtimeNano", func(ip *Interp, a []Value) Value { return i64(0) })
+	// no time-zone database: time.Local falls back to UTC (initLocal's documented fallback)
+	reg("time.open", func(ip *Interp, a []Value) Value {
+		sp := ip.P.ByPath["syscall"]
+		if sp == nil {
+			ip.unsupported("time.open without package syscall")
+		}
+		t := sp.Type("Errno").Object().Type()
+		return Tuple{Const(SBV64, 0), Iface{T: t, V: Const(SBV64, 2)}}
+	})
 	reg("time.now", func(ip *Interp, a []Value) Value { return ip.clockNow() })
 	reg("math/rand.Seed", func(ip *Interp, a []Value) Value { return nil })
 	reg("math/rand.Intn", func(ip *Interp, a []Value) Value {
